@@ -189,6 +189,20 @@ def micro_c07_scenario(r) -> Dict[str, Any]:
             else:
                 acts.append({"op": "cancel", "among": "open", "pick": r.randrange(10)})
         actions[f"BTC/USD@{t}"] = acts
+    if r.random() < 0.5:
+        # rollback variant: a sell whose minimum fee exceeds its proceeds needs two loans (base to sell, quote for the
+        # fee); with a modest equity the small one is granted and the big one refused, so the first must be undone
+        sc["fee"] = {"pct": "0.1", "min": r.choice(["5000", "250000", "1000000"])}
+        sc["init"] = {"USD": r.choice(["100", "2000", "50000"]), "BTC": "0", "ETH": "0"}
+        for c in [sc["lend"]["default"]] + list(sc["lend"]["per_symbol"].values()):
+            c["req"] = r.choice(["0.25", "0.5", "1"])
+            c["interest_symbol"] = "USD"
+        for key in list(actions):
+            for _ in range(r.choice([1, 2])):
+                actions[key].insert(0, {"op": "order", "kind": r.choice(["limit", "market", "stop"]), "side": "sell",
+                                        "pair": "BTC/USD", "amount": r.choice(["0.0100", "0.0500", "0.2000"]),
+                                        "limit": "900", "stop": "1100", "auto_borrow": True,
+                                        "auto_repay": r.random() < 0.3})
     sc["actions"] = actions
     sc["jobs"] = []
     sc["on_order_event"] = []
